@@ -4,6 +4,7 @@ import OdlModel.Model.Lincomb
 import OdlModel.Gen.LincombTree
 import OdlModel.Model.ElemOps
 import OdlModel.Gen.Broadcast
+import OdlModel.Gen.OpFront
 open OdlModel OdlModel.Lincomb OdlModel.ElemOps
 
 /-- Descriptor field `lay=<6 bits>`: c/f contiguity of x1.data, x2.data, out.data;
@@ -377,6 +378,42 @@ def doElemOpL (l : Line) : Option String := do
     let dump (b : Nat) := showCList ((List.range n).map (m' b))
     some s!"ok r={r} res={dump r} x={dump 0} l={dump 1}"
 
+def parseMeth : String → Option Meth
+  | "add" => some .add | "radd" => some .radd | "sub" => some .sub | "rsub" => some .rsub
+  | "mul" => some .mul | "rmul" => some .rmul | "truediv" => some .truediv
+  | "rtruediv" => some .rtruediv | "iadd" => some .iadd | "isub" => some .isub
+  | "imul" => some .imul | "itruediv" => some .itruediv
+  | _ => none
+
+def methName : Meth → String
+  | .add => "add" | .radd => "radd" | .sub => "sub" | .rsub => "rsub" | .mul => "mul"
+  | .rmul => "rmul" | .truediv => "truediv" | .rtruediv => "rtruediv" | .iadd => "iadd"
+  | .isub => "isub" | .imul => "imul" | .itruediv => "itruediv"
+
+/-- `opfront op=<method> kind=<operand kind>` : the EXTRACTED chain in front of the operator
+(`Gen.OpFront.progOf`) evaluated on the facts of that operand kind. -/
+def doOpFront (l : Line) : Option String := do
+  let m ← l.get? "op" >>= parseMeth
+  let kind ← l.get? "kind"
+  let z : OFacts := ⟨false, false, false, false, false, false, false⟩
+  let f ← match kind with
+    | "foreign" => some { z with isElem := true }
+    | "uncoercible" => some z
+    | "priority" => some { z with prio := true }
+    | "nofield" => some { z with noField := true, inSpace := true, isElem := true }
+    | "nofield-scalar" => some { z with noField := true }
+    | "noone" => some { z with inField := true, noOne := true }
+    | "element" => some { z with inSpace := true, isElem := true }
+    | "scalar" => some { z with inField := true }
+    | "arraylike" => some { z with coercible := true }
+    | _ => none
+  match (OdlModel.Gen.OpFront.progOf m).eval OdlModel.Gen.OpFront.progOf 40 f with
+  | none => some "err:fuel"
+  | some (.delegate d) => some s!"ok route=delegated:__{methName d}__"
+  | some .notimpl => some "ok route=notimpl"
+  | some .typeerror => some "ok route=typeerror"
+  | some .write => some "ok route=element"
+
 def handle (l : Line) : Option String :=
   match l.op with
   | "lincomb" => doLincomb l
@@ -391,6 +428,7 @@ def handle (l : Line) : Option String :=
   | "pelemop" => doPElemOp l
   | "tover" => doTOver l
   | "elemopl" => doElemOpL l
+  | "opfront" => doOpFront l
   | "ipowroute" => doIpowRoute l
   | "leaves" => doLeaves l
   | _ => none
